@@ -51,6 +51,9 @@ func datadogExpected(w *workload) (out []rec, perSeries []int) {
 				for b, cnt := range s.histF {
 					add(s.Name+".histogram", sortedJoin(append(append([]string(nil), s.Tags...), leTag(b)), ","), float64(cnt), "timer.histogram")
 				}
+				for _, suffix := range allTimerSubs() {
+					out = append(out, rec{Name: s.Name + "." + suffix, Tags: tg, Host: s.Source, Class: gsdSummary, Ser: i, Forbidden: true})
+				}
 				continue
 			}
 			for _, sm := range stdTimerSubs(s, w.Disabled) {
